@@ -2,8 +2,8 @@ package checks
 
 import (
 	"fmt"
-	"strings"
 	"math/rand"
+	"strings"
 
 	"github.com/formancehq/ledger/verifharness/core"
 	"github.com/formancehq/ledger/verifharness/sim"
@@ -17,6 +17,10 @@ func init() {
 		Run: func(r *core.Run) {
 			reverts := 0
 			_ = reverts
+			if r.RaceMode { // the sequential part is not what the race detector is for
+				runConcurrent(r, "C15")
+				return
+			}
 			runSeq(r, seqConfig{Prop: "C15", Histories: [2]int{200, 4000}, OpsPer: [2]int{30, 50},
 				Mutate: func(op *sim.Op, rng *rand.Rand, st *sim.GenState) {
 					if len(st.TxIDs) > 0 && rng.Intn(100) < 30 {
@@ -87,6 +91,10 @@ func init() {
 		Rule:        "random sequential histories of all write kinds: every successful non-dry-run write must append exactly one log, every other operation none, ids increasing; at the end the exported logs (JSON round trip, as export/import do) are replayed through the real Import into a fresh ledger and the two committed snapshots compared. Distinct = sequence of (op shape, outcome class); non-trivial = history committed >=3 kinds of log",
 		Assumptions: []string{seqAssume, "log id order under real Postgres sequences is C16 (not applicable)"},
 		Run: func(r *core.Run) {
+			if r.RaceMode { // the sequential part is not what the race detector is for
+				runConcurrent(r, "C08")
+				return
+			}
 			runSeq(r, seqConfig{Prop: "C08", Histories: [2]int{150, 3000}, OpsPer: [2]int{30, 50}, After: c08Replay})
 			runConcurrent(r, "C08")
 		},
